@@ -123,6 +123,8 @@ def time_body(ctx, case):
 @st.composite
 def local_case(draw, ctx):
     name = draw(st.sampled_from([s for s in gens.STRATEGY_NAMES if s != "CubicSplineRFA"]))
+    # alpha stays in the documented range (0, 1]: for alpha > 1 (window longer than the interval) the adaptive
+    # strategies of the unchanged tree already reach three intervals, so nothing is claimed there
     case = draw(rfagen.rfa_case(ctx, strategies=[name], m_lo=3, m_hi=ctx.pick(16, 40), n_hi=ctx.pick(16, 32)))
     m = len(case["y"])
     case["j"] = draw(st.integers(0, m - 1))
